@@ -1,3 +1,4 @@
+import Crusta.Model.Cli
 import Driver.Util
 import Crusta.Model.Readers
 import Crusta.Model.Store
@@ -35,7 +36,14 @@ def runRead (lines : List String) : List String := Id.run do
     | some a => (a.splitOn "/").map unhex
     | none => []
   let mut out : List String := []
-  if fmt == "iccma" then
+  if fmt == "prob" then
+    match decodeUtf8 bytes with
+    | some s =>
+      match Crusta.Cli.readProblem s with
+      | some (t, σ) => out := s!"P ok {Crusta.Cli.taskName t} {Crusta.Cli.semName σ}" :: out
+      | none => out := "P err" :: out
+    | none => out := "P skip" :: out
+  else if fmt == "iccma" then
     match readIccma bytes with
     | .ok af =>
       out := s!"R ok n={af.n} labels={",".intercalate ((List.range af.n).map (fun i => toString (i + 1)))} atts={attsStr af.atts}" :: out
